@@ -108,6 +108,21 @@ type Task struct {
 	prio       int
 	blockVotes int
 	Daemon     bool // daemon tasks (executor workers) parked on a predicate do not count as work
+	quiet      int  // > 0: library hooks reached by this task are not scheduling points (an oracle is reading)
+}
+
+// Quietly runs f on the calling task with the library's yield hooks switched off: an oracle that re-reads many
+// values after every event would otherwise spend the step budget of the run on its own reads. Outside a task it
+// just calls f (hooks are no scheduling points there anyway).
+func (r *Run) Quietly(f func()) {
+	t := r.currentTask()
+	if t == nil {
+		f()
+		return
+	}
+	t.quiet++
+	defer func() { t.quiet-- }()
+	f()
 }
 
 // Violation describes a property violation found in a run.
@@ -215,7 +230,7 @@ func hook(op string) {
 		return // the per-entry yield of UnsafeGoMap.Iterator is a scheduling point only for runs that own the range
 	}
 	t := r.currentTask()
-	if t == nil {
+	if t == nil || t.quiet > 0 {
 		return
 	}
 	t.park(op, nil)
@@ -683,6 +698,10 @@ func (r *Run) RunToQuiescence() {
 			return
 		}
 		if r.Steps >= r.MaxSteps {
+			if os.Getenv("VERIF_DEBUG_CAP") != "" {
+				buf := make([]byte, 1<<20)
+				fmt.Fprintf(os.Stderr, "%s\n", buf[:runtime.Stack(buf, true)])
+			}
 			r.Violate("no-progress", "step cap %d reached", r.MaxSteps)
 			return
 		}
